@@ -40,7 +40,7 @@ ASSUMPTIONS = [
 FLAGS = ["allow_delete", "allow_move", "allow_rename", "public", "visible", "partially_hidden"]
 SKIP = {"uid", "on_file", "parent", "workspace", "entity_type", "association", "primitive_type", "properties", "modifiable", "image", "tag", "visual_parameters", "depths",
         "receivers", "transmitters", "base_stations", "current_electrodes", "potential_electrodes", "ab_cell_id", "tx_id_property", "channels", "unit", "input_type", "loop_radius",
-        "timing_mark", "waveform", "inline_offset", "crossline_offset", "vertical_offset", "pitch", "roll", "yaw", "relative_to_bearing", "coordinate_reference_system", "colour", "file_name", "map"}
+        "timing_mark", "waveform", "inline_offset", "crossline_offset", "vertical_offset", "pitch", "roll", "yaw", "relative_to_bearing", "coordinate_reference_system", "colour", "map"}
 SCALARS = {"name", "allow_delete", "allow_move", "allow_rename", "public", "visible", "partially_hidden", "rotation", "dip", "u_count", "v_count", "w_count", "u_cell_size", "v_cell_size", "w_cell_size",
            "vertical", "cost", "planning", "end_of_hole", "last_focus", "description", "units", "hidden", "number_of_bins", "transparent_no_data", "mapping", "allow_delete_content", "allow_move_content"}
 
@@ -71,7 +71,7 @@ def settable(cls):
     from geoh5py.shared.utils import KEY_MAP
 
     amap = {v.split(":")[0] for v in getattr(cls, "_attribute_map", {}).values()}
-    named = amap | set(KEY_MAP) | {"metadata", "options", "units", "mapping", "color_map", "value_map", "description", "name", "last_focus", "collar", "origin", "parts"}
+    named = amap | set(KEY_MAP) | {"metadata", "options", "units", "mapping", "color_map", "value_map", "description", "name", "last_focus", "collar", "origin", "parts", "file_name"}
     out = []
     for n in dir(cls):
         p = inspect.getattr_static(cls, n, None)
@@ -123,6 +123,8 @@ def plain_values_for(e, attr, rng, k):
         if cname == "CommentsData" or getattr(e, "name", "") in ("UserComments", "Visual Parameters", "DEPTH", "FROM", "TO"):
             return None
         return pick(["renamed", "ünï cödé ✓", "with/slash", "x" * 60, "n 2"])
+    if attr == "file_name":
+        return pick(["renamed.dat", "b.bin", "with space.txt"]) if cname == "FilenameData" and cur is not None else None
     if attr == "description":
         return pick(["a description", "déscription", ""])
     if attr == "units":
